@@ -554,6 +554,7 @@ func checkC11(p *Prog, r *Result, tier string) {
 		// order of the two loops: stale entries are dropped before unindexed files are indexed (a stale entry may
 		// hold a unique value that a new file needs)
 		var accHdr, delHdr *ssa.BasicBlock
+		accIdx, delIdx, curIdx := 0, 0, 0 // position inside the block (two helper calls in one block)
 		classify := func(f *ssa.Function, pos func(lp natLoop) *ssa.BasicBlock) {
 			for _, lp := range naturalLoops(f) {
 				for _, b := range lp.blocks {
@@ -569,9 +570,9 @@ func checkC11(p *Prog, r *Result, tier string) {
 						cl := c.Of(g)
 						switch {
 						case cl.Has(EErrUnique) && cl.Has(EIdxWLive) && !cl.Has(EFsRObj):
-							accHdr = pos(lp)
+							accHdr, accIdx = pos(lp), curIdx
 						case cl.Has(EIdxWLive) && !cl.Has(EErrUnique) && !cl.Has(EFsRObj) && !cl.Has(ETblR) && p.IsIndexDelete(g):
-							delHdr = pos(lp)
+							delHdr, delIdx = pos(lp), curIdx
 						}
 					}
 				}
@@ -580,11 +581,13 @@ func checkC11(p *Prog, r *Result, tier string) {
 		classify(rep, func(lp natLoop) *ssa.BasicBlock { return lp.header })
 		// a loop extracted into a helper counts at the position of the helper's call in Repair
 		for _, b := range rep.Blocks {
-			for _, in := range b.Instrs {
+			for ii, in := range b.Instrs {
 				if call, ok := in.(*ssa.Call); ok {
-					if g := call.Call.StaticCallee(); g != nil && g.Blocks != nil && inSod(p, g) && g != rep && (recvIs(g, a.Schema) || recvIs(g, a.DB)) && len(naturalLoops(g)) > 0 && !c.Of(g).Has(ETblR) {
+					if g := call.Call.StaticCallee(); g != nil && g.Blocks != nil && inSod(p, g) && g != rep && len(naturalLoops(g)) > 0 {
 						blk := b
+						curIdx = ii + 1
 						classify(g, func(lp natLoop) *ssa.BasicBlock { return blk })
+						curIdx = 0
 					}
 				}
 			}
@@ -592,7 +595,7 @@ func checkC11(p *Prog, r *Result, tier string) {
 		switch {
 		case accHdr == nil || delHdr == nil:
 			r.Report("C11.R4", FuncName(rep), "stale entries dropped before files are indexed", Undecided, "the two loops of Repair were not both recognised", p.Pos(rep.Pos()), nil, true)
-		case delHdr.Dominates(accHdr) && !accHdr.Dominates(delHdr):
+		case delHdr == accHdr && delIdx < accIdx, delHdr != accHdr && delHdr.Dominates(accHdr) && !accHdr.Dominates(delHdr):
 			r.Report("C11.R4", FuncName(rep), "stale entries dropped before files are indexed", Discharged, "", p.Pos(rep.Pos()), nil, true)
 		default:
 			r.Report("C11.R4", FuncName(rep), "stale entries dropped before files are indexed", Violated, "Repair indexes unindexed files before it drops the entries whose file is gone: a stale entry holding a unique value vetoes the file that now carries it, Repair returns the uniqueness error and never converges", p.Pos(rep.Pos()), nil, true)
